@@ -1,4 +1,5 @@
 import ComposeVerif.Gen.AssertSites
+import ComposeVerif.Gen.NilDerefs
 import ComposeVerif.Gen.Schema
 import ComposeVerif.Model.SchemaPaths
 /-!
@@ -133,5 +134,24 @@ theorem schema_rows_match :
       [(["services", "*", "deploy", "resources", "reservations", "devices", "[]"], [.object]),
        (["configs", "*"], [.object]),
        (["services", "*", "develop", "watch", "[]", "path"], [.string])] := by decide
+
+/-! ## nil dereferences of pointer fields in loader/validate.go (`checkConsistency`)
+
+`Gen/NilDerefs.lean` (translator/c01nil.go) lists every field selection `P.f` where `P` is a field chain of pointer
+type, with the syntactic nil test on the same expression `P` that covers it: `cond` (earlier in the same `&&` / `||`
+chain), `enclosing` (a conjunct `P != nil` of an enclosing `if`), `early` (an earlier `if P == nil { return/continue }`),
+or `NONE`.  Seeded change C01-2 (`…Limits != nil && …Reservations.MemoryBytes`) shows up as a `NONE` row.
+Approximation: assignments to `P` between test and use and aliases of `P` are not tracked; only loader/validate.go. -/
+
+/-- every dereference of a possibly-nil pointer field in `checkConsistency` is covered by a nil test on that field -/
+theorem nil_derefs_guarded : CV.Gen.nilDerefs.all (fun r => r.2.2.2.1 != "NONE") = true := by decide
+
+/-- the pointer fields that are dereferenced are the reviewed ones (a new one has to be looked at) -/
+theorem nil_deref_pointers_reviewed :
+    (CV.Gen.nilDerefs.map (fun r => r.2.1)).eraseDups =
+      ["s.Build", "s.HealthCheck", "s.Deploy", "s.Deploy.Resources.Limits", "s.Deploy.Resources.Reservations", "s.Develop"] := by
+  decide
+
+#eval CV.Gen.nilDerefs.filter (fun r => r.2.2.2.1 == "NONE")
 
 end CV.C01.Sites
